@@ -329,18 +329,30 @@ func (c *Client) Backup(ctx context.Context, br *command.BackupRequest, nodeAddr
 
 	// The backup stream is unconditionally compressed, so depending on whether
 	// the user requested compression, we may need to decompress the response.
-	var rc io.ReadCloser
-	rc = conn
-	if !br.Compress {
-		gzr, err := gzip.NewReader(conn)
+	if br.Compress {
+		// The caller wants the compressed bytes as they are. Still decode them
+		// on the side: the end of the compressed stream is the only thing that
+		// marks the end of the backup, since the remote node keeps the connection
+		// open for further commands. Without this the copy would only end when
+		// the connection times out, and a stream cut short by the remote end
+		// would be passed on as a complete backup.
+		gzr, err := gzip.NewReader(io.TeeReader(conn, w))
 		if err != nil {
 			return err
 		}
 		gzr.Multistream(false)
-		rc = gzr
-		defer rc.Close()
+		defer gzr.Close()
+		_, err = io.Copy(io.Discard, gzr)
+		return err
 	}
-	_, err = io.Copy(w, rc)
+
+	gzr, err := gzip.NewReader(conn)
+	if err != nil {
+		return err
+	}
+	gzr.Multistream(false)
+	defer gzr.Close()
+	_, err = io.Copy(w, gzr)
 	return err
 }
 
